@@ -1,4 +1,5 @@
 import KyupyVerif.Proofs.Def
+import KyupyVerif.Proofs.DefText
 /-! # C20 — DEF data is extracted as written, with wildcards and via arrays expanded
 
 **Theorem (this file, for ALL point lists / wires / nets of the model `Model/Def.lean`):**
@@ -26,8 +27,18 @@ as-is readings as violations (classes `regular-net-wires`, `wildcard-in-wires`, 
 **Oracle (sampled):** every attribute that `def_file.parse` extracts from a generated DEF text equals the generator's AST
 (units, die area, rows, tracks, via definitions, components, pins, net pins/options, raw wire entries), and
 `wires`/`vias` equal the generator's ground-truth geometry.
-**Not covered by theorems:** the lark grammar/lexer and the transformer's record building (exercised only by the
-differential run). -/
+**Theorem, text level** (section `text`, model `KV.DefText` in Model/DefText.lean = the whole grammar of `def_file.py` read as
+lark reads it: contextual scanner with the per-state terminal order of the real `Lark` object, string terminals `(` `;` `NEW`
+`DO` folded into `ID` and re-typed on a whole match, the merged scanner after every point / orientation / `DO` statement,
+ORIENTATION with look-ahead, NUMBER / SIGNED_NUMBER / STRING as their expressions; then `DefFile.ok` = the `int()` calls of
+`DefTransformer`): `def_text_roundtrip` — `parseDef (printDef f) = some f` for every valid syntax tree; `def_text_roundtrip_tree`
+(grammar alone), `def_text_valid_ok`.  `DefFile.netsRouted` hands the ROUTED wires of every net to the routing model above.
+**Correspondence, text level (harness/c20.py, sampled):** the model reader (driver `defparse`) against the real lark grammar — parse
+tree with ALL tokens kept, every rule and every token text — and the real `def_file.parse` (accept / raise) on generated files,
+hand-written corner cases (missing blanks, `(10`, `NEWVIA`, `3;`, escaped strings, comments) and mutated texts; for generated
+files also the hand-over: `netsRouted` = the real `DefWire` records of every net.
+**Still trusted:** that lark implements the grammar as the hand-written reader does (LALR tables, `re` semantics) — checked by the
+text correspondence, not proved; the transformer's record building (attribute oracle above). -/
 namespace KV.C20
 open KV.Def
 
@@ -329,5 +340,86 @@ def exPlain : Wire :=
   { layer := "m3", width := some 50, start := ⟨some 1, some 1, none⟩, rest := [.pt ⟨some 2, some 2, some 4⟩, .via "v" none] }
 example : [exPlain, exPlain].all (fun w => w.width.isSome) = true ∧
     [exPlain, exPlain].all (fun w => w.wirePointsRaw.all RPt.explicit) = true := by decide
+
+/-! ## text level: the grammar of `def_file.py` (Model/DefText.lean) -/
+section text
+open KV.DefText
+
+/-- Print/parse round trip of the DEF text model: for every syntax tree `f` of the grammar (head comment, VERSION /
+DIVIDERCHAR / BUSBITCHARS, DESIGN with UNITS, DIEAREA, ROW, TRACKS, PROPERTYDEFINITIONS, VIAS, NONDEFAULTRULES,
+COMPONENTS, PINS, PINPROPERTIES, SPECIALNETS, NETS incl. all wiring forms) whose tokens are tokens of the grammar
+(`DefFile.valid`: names without white space that the scanner does not read as something else at their place, unsigned /
+signed integers, plain strings, option keywords of their statement, no pin directly after wiring), reading the
+canonical text (every token preceded by a blank) gives back exactly `f` — through the scanner with lark's per-state
+terminal order and its folding of `(`, `;`, `NEW`, `DO` into `ID`, the reader for the grammar, and the transformer's
+raise conditions (`DefFile.ok`). -/
+theorem def_text_roundtrip (f : DefFile) (h : f.valid = true) : parseDef (printDef f) = some f := parseDef_print f h
+
+/-- the same at the grammar level alone (what lark's parse tree contains, no transformer) -/
+theorem def_text_roundtrip_tree (f : DefFile) (h : f.valid = true) : parseTree (printDefL f) = some f :=
+  parseTree_print f h
+
+/-- a valid tree never makes the transformer raise -/
+theorem def_text_valid_ok (f : DefFile) (h : f.valid = true) : f.ok = true := DefFile.ok_of_valid f h
+
+private def t (s : String) : Txt := s.toList
+private def pt (x y : Option String) (e : Option String := none) : TPoint := ⟨x.map t, y.map t, e.map t⟩
+
+/-- a file with every statement kind: special and regular nets, wildcards, a third point value, a via array with signed
+steps, orientations, TAPER / TAPERRULE / STYLE, several wires per statement, a net without parts -/
+def exText : DefFile :=
+  { head := some (t "# generated"),
+    stmts := [.version (t "5.8"), .dividerchar (t "\"/\""), .busbitchars (t "\"[]\""),
+      .design (t "top") [
+        .units (t "DISTANCE") (t "MICRONS") (t "1000"),
+        .diearea [pt (some "0") (some "0"), pt (some "100") (some "200")],
+        .row (t "ROW_1") (t "core") (t "0") (t "0") (t "N") ⟨t "10", t "1", t "380", t "0"⟩,
+        .tracks (t "X") (t "190") (t "20") (t "380") (t "metal1"),
+        .propdef [(t "foo", t "STRING")],
+        .vias (t "1") [⟨t "via1_0", [⟨.Viarule, [t "r"]⟩, ⟨.Cutsize, [t "1", t "2"]⟩, ⟨.Layers, [t "a", t "b", t "c"]⟩,
+          ⟨.Enclosure, [t "1", t "2", t "3", t "4"]⟩]⟩],
+        .nondef (t "1") [(t "rule1", [.hard, .layer (t "m1") (t "10") (t "20"), .via (t "v1")])],
+        .comps (t "1") [⟨t "u1", t "NAND2_X1", pt (some "10") (some "20"), t "FS"⟩],
+        .pins (t "1") [⟨t "io1", [.word .Net (t "n1"), .flag .Special, .word .Direction (t "INPUT"),
+          .layer (t "m1") (pt (some "0") (some "0")) (pt (some "1") (some "1")), .flag .Port,
+          .placed (pt (some "5") (some "5")) (t "N")]⟩],
+        .pinprop (t "1") [(t "io1", t "foo", t "\"b c\"")],
+        .spnets (t "1") [⟨t "VDD", [.pin (t "*") (t "VDD"), .opt .Use (t "POWER"),
+            .wiring .Routed [⟨t "metal1", some (t "100"), [(true, t "RING"), (false, t "1")], .none, none, pt (some "0") (some "0"),
+               [.via (t "via1_0") none, .arr (t "via1_0") ⟨t "2", t "3", t "+10", t "-20"⟩, .pt (pt none (some "50") (some "7"))]⟩,
+              ⟨t "metal2", some (t "5"), [], .none, none, pt (some "1") (some "1"), [.via (t "v2") none]⟩]]⟩],
+        .nets (t "2") [⟨t "n1", [.pin (t "u1") (t "A"), .pin (t "PIN") (t "io1"),
+            .wiring .Routed [⟨t "metal1", none, [], .taper, some (t "2"), pt (some "0") (some "0"),
+               [.pt (pt (some "5") none), .via (t "via1_0") (some (t "FS")), .via (t "v3") none, .via (t "v4") none, .pt (pt none none)]⟩,
+              ⟨t "metal2", none, [], .rule (t "r1"), none, pt (some "1") (some "1"), [.via (t "v2") none]⟩],
+            .opt .Use (t "SIGNAL"),
+            .wiring .Noshield [⟨t "m3", none, [], .none, some (t "0"), pt (some "1") (some "1"), [.via (t "v2") (some (t "N"))]⟩]]⟩,
+          ⟨t "n2", []⟩]]] }
+
+example : exText.valid = true := by decide +kernel
+example : parseDef (printDef exText) = some exText := def_text_roundtrip exText (by decide +kernel)
+
+/-- hand-over to the routing model: the ROUTED wires of regular net `n1` of `exText` as `KV.Def.Wire` records, and what
+the routing theorems above say about them (`*` resolved, third value carried, vias at the last point) -/
+def exRouted : Option (List Wire) := (exText.netsRouted.find? (·.2.1 == t "n1")).bind (·.2.2)
+example : exRouted.map (·.map (·.layer)) = some ["metal1", "metal2"]
+    ∧ exRouted.map (fun ws => (ws.headD default).wirePoints.map (fun p => (p.x, p.y))) = some [(0, 0), (5, 0), (5, 0)]
+    ∧ exRouted.map netViasD
+      = some [("via1_0", [(5, 0, "FS")]), ("v3", [(5, 0, "N")]), ("v4", [(5, 0, "N")]), ("v2", [(1, 1, "N")])] := by
+  decide +kernel
+
+/-- the reader on texts the printer does not produce: no blank before `;` after a NUMBER, a comment, `(10` after a point
+is a via name (`(` is folded into `ID`), `NEWVIA` is a name, an orientation needs white space behind it -/
+example : parseDef "DESIGN t ; VIAS 1; END VIAS # c\nEND DESIGN" = some ⟨none, [.design (t "t") [.vias (t "1") []]]⟩ := by
+  decide +kernel
+example : parseDef "DESIGN t ; NETS 1 ; - n + ROUTED m1 ( 0 0 ) (10 NEWVIA N ; END NETS END DESIGN"
+    = some ⟨none, [.design (t "t") [.nets (t "1") [⟨t "n", [.wiring .Routed
+        [⟨t "m1", none, [], .none, none, pt (some "0") (some "0"), [.via (t "(10") none, .via (t "NEWVIA") (some (t "N"))]⟩]]⟩]]]⟩ := by
+  decide +kernel
+example : parseDef "DESIGN t ; NETS 1 ; - n + ROUTED m1 ( 0 0 ) v N; END NETS END DESIGN" = none := by decide +kernel
+/-- `int("1.5")` raises in the transformer; the grammar accepts the text -/
+example : parseDef "DESIGN t ; UNITS DISTANCE MICRONS 1.5 ; END DESIGN" = none
+    ∧ (parseTree "DESIGN t ; UNITS DISTANCE MICRONS 1.5 ; END DESIGN".toList).isSome = true := by decide +kernel
+end text
 
 end KV.C20
